@@ -413,6 +413,10 @@ MID_CONTIGS = [
     ([3, 3, 0, 3, 3, 1, 1, 0, 1, 1, 1, 1, 2, 0, 2, 2, 2, 2, 0, 0, 0, 2, 1, 2, 0, 1, 2], [(1, 1, 0), (2, 0, 2), (0, 0, 2)]),
     ([2, 0, 0, 2, 3, 3, 2, 1, 1, 2, 3, 0, 1, 3, 0, 0, 0, 3, 3, 0, 3, 2, 0, 1, 0, 2, 1], [(3, 2, 1), (1, 3, 0), (0, 3, 2)]),
 ]
+# a segment between two splitters that contains a run of five N: both samples share the gap, the second differs by one base somewhere
+CN = [3, 3, 0, 2, 3, 3, 2, 3, 2, 1, 1, 2, 1, 4, 4, 4, 4, 4, 0, 2, 3, 0, 2, 3, 2, 1, 3, 3, 2, 0, 0, 0, 3, 0]
+SPLN = [(2, 3, 3), (3, 2, 0)]
+NRUN = [(b"s1", [(b"c1", CN)]), (b"s2", [(b"c1", CN)])]
 MID_ALTS = [([(b"s1", [(b"c1", c)]), (b"s2", [(b"c1", c)])], spl) for c, spl in [(C4, SPL3)] + MID_CONTIGS]
 
 
@@ -447,3 +451,4 @@ _reg(Pipeline("sym2_api_t1", 1, TWO, splitters=SPL, preempt=0, driver="api", sym
 _reg(Pipeline("edit_subst_t1", 1, TWO, splitters=SPL, preempt=0, driver="api", edits=[("subst", 1, 0)]))
 _reg(Pipeline("edit_indel_rc_t1", 1, TWO, splitters=SPL, preempt=0, driver="api", edits=[("rc", 1, 0), ("del", 1, 0), ("ins", 1, 0)]))
 _reg(Pipeline("fmt_api_t1", 1, THREE, splitters=SPL, preempt=0, driver="api", view="format"))
+_reg(Pipeline("nrun_subst_multi_t1", 1, NRUN, splitters=SPLN, preempt=0, driver="multi", edits=[("subst", 1, 0)], sym_alpha=(0, 1, 2, 3, 4)))
